@@ -89,8 +89,15 @@ def _divisors(n):
     return [d for d in (1, 2, 3, 4) if n % d == 0]
 
 
-def _opt(g, strict, good, bad):
-    """Pick from the firing classes only (strict) or from firing + near-miss classes."""
+def _opt(g, strict, good, bad, name=None):
+    """Pick from the firing classes only (strict) or from firing + near-miss classes.
+    In single-deviation mode (g._single_dev set) every parameter is drawn from the firing classes except the ONE named
+    parameter, which is drawn from the near-miss classes: a near-miss that differs in exactly one constraint."""
+    dev = getattr(g, "_single_dev", None)
+    if dev is not None and name is not None:
+        if name == dev and bad:
+            return g.pick(list(bad))
+        return g.pick(list(good))
     return g.pick(list(good) if strict else list(good) + list(bad))
 
 
@@ -308,6 +315,7 @@ def _weight(g, dtype, shape, how=None, tag=None, strict=False):
 
 def _finish(g, outs, tag, inter=None, strict=False):
     """outs: list[Val] or None.  Sometimes also return an intermediate so that it has an extra consumer."""
+    g._single_dev = None
     if not outs:
         return None
     res = list(outs)
@@ -321,9 +329,14 @@ def _finish(g, outs, tag, inter=None, strict=False):
 def _pad_conv(g, integer):
     tag = "pad_convint" if integer else "pad_conv"
     g.features.add(f"planted:{tag}")
-    strict = g.chance(5)
+    strict = g.chance(4)
+    g._single_dev = None
     if strict:
         g.features.add(f"planted:{tag}:strict")
+    elif g.chance(5):
+        g._single_dev = g.pick(["pads", "pads", "mode", "cv"])
+        g.features.add(f"planted:{tag}:single_deviation:{g._single_dev}")
+    tight = strict or g._single_dev is not None  # parameters without near-miss classes of their own
     if g.chance(2):
         g.set_opset(g.pick([11, 12, 12] if integer else [10, 10, 11, 12]))
     nd = g.pick([1, 2, 2, 2, 3])
@@ -332,11 +345,14 @@ def _pad_conv(g, integer):
     sp = [g.pick([3, 4, 5, 6]) for _ in range(nd)]
     rank = nd + 2
     xdt = g.pick([U8, U8, U8, I8]) if integer else F32
-    x = _data(g, xdt, (N, C, *sp), tag, pre=1 if strict else 3)
+    x = _data(g, xdt, (N, C, *sp), tag, pre=1 if tight else 3)
 
     # ---- pads
-    pclass = _opt(g, strict, ["spatial", "spatial", "spatial", "spatial", "zeros"], ["batch_chan", "batch_chan", "negative"])
-    mode = _opt(g, strict, [None, "constant", "constant", "constant"], ["reflect", "edge"] + (["wrap"] if g.opset >= 19 else []))
+    pclass = _opt(g, strict, ["spatial", "spatial", "spatial", "spatial", "zeros"], ["batch_chan", "batch_chan", "batch_chan_end_only", "negative"], name="pads")
+    mode = _opt(g, strict, [None, "constant", "constant", "constant"], ["reflect", "edge"] + (["wrap"] if g.opset >= 19 else []), name="mode")
+    end_only = pclass == "batch_chan_end_only"  # begin pads of N and C zero, an END pad non-zero
+    if end_only:
+        pclass = "batch_chan"
     axes = None
     if g.opset >= 18 and g.chance(4):
         ak = g.pick(["all", "spatial", "spatial_neg", "permuted", "subset", "with_batch"])
@@ -363,6 +379,8 @@ def _pad_conv(g, integer):
             b = e = 0
         elif a < 2:
             b, e = (g.pick([0, 1]), g.pick([0, 1])) if pclass == "batch_chan" else (0, 0)
+            if end_only:
+                b, e = 0, (1 if a == 0 else g.pick([0, 1]))
             if pclass == "batch_chan" and a == 1 and group != 1:
                 b = e = 0  # keep the channel count divisible by group
         else:
@@ -376,7 +394,9 @@ def _pad_conv(g, integer):
         ends.append(e)
     if pclass == "batch_chan" and not any(begins[i] or ends[i] for i, a in enumerate(ax_list) if a % rank < 2):
         i0 = [i for i, a in enumerate(ax_list) if a % rank == 0]
-        if i0:
+        if i0 and end_only:
+            ends[i0[0]] = 1
+        elif i0:
             begins[i0[0]] = 1
         else:
             pclass = "spatial"
@@ -391,7 +411,7 @@ def _pad_conv(g, integer):
 
     # ---- constant_value
     cv_good = ["absent", "absent", "zero", "zero"] + ([] if integer else ["negzero"])
-    cv_kind = _opt(g, strict, cv_good, ["nonzero", "nonzero", "dyn_zero"])
+    cv_kind = _opt(g, strict, cv_good, ["nonzero", "nonzero", "dyn_zero"], name="cv")
     if axes is not None and cv_kind == "absent" and g.chance(5):
         cv_kind = "empty"
     g.features.add(f"planted:{tag}:cv_{cv_kind}")
@@ -407,7 +427,7 @@ def _pad_conv(g, integer):
         g.features.add(f"planted:{tag}:pad_attr_form")
         p = g.emit("Pad", [x], **attrs)
     else:
-        pv, phow = _const(g, np.asarray(pads, dtype=np.int64), strict=strict)
+        pv, phow = _const(g, np.asarray(pads, dtype=np.int64), strict=tight)
         g.features.add(f"planted:{tag}:padsop_{phow}")
         ins = [x, pv]
         cv = None
@@ -423,7 +443,7 @@ def _pad_conv(g, integer):
             ins.append(cv)
         if axes is not None:
             adt = np.int64  # int32 axes are allowed by the schema but onnx shape inference (checker) rejects them
-            av, ahow = _const(g, np.asarray(axes, dtype=adt), how=_opt(g, strict, ["node", "init", "init", "ovinit"], ["identity"]))
+            av, ahow = _const(g, np.asarray(axes, dtype=adt), how=_opt(g, tight, ["node", "init", "init", "ovinit"], ["identity"]))
             g.features.add(f"planted:{tag}:axesop_{ahow}")
             ins.append(av)
         attrs = {} if mode is None else {"mode": mode}
@@ -438,7 +458,7 @@ def _pad_conv(g, integer):
         return None
 
     # ---- conv
-    aps = [None, None, None, "NOTSET", "NOTSET"] + ([] if strict else ["VALID", "SAME_UPPER", "SAME_LOWER"])
+    aps = [None, None, None, "NOTSET", "NOTSET"] + ([] if tight else ["VALID", "SAME_UPPER", "SAME_LOWER"])
     setup = _conv_setup(g, nd, p.shape, group, aps, tag=tag)
     if setup is None:
         return None
@@ -477,7 +497,7 @@ def _pad_conv(g, integer):
             ins.append(b)
             g.features.add(f"planted:{tag}:bias")
         y = _emit_conv(g, "Conv", ins, attrs)
-    return _finish(g, y, tag, inter=p, strict=strict)
+    return _finish(g, y, tag, inter=p, strict=tight)
 
 
 @register("fuse_pad_into_conv_rule")
